@@ -52,6 +52,8 @@ def replay_relative(verdict, exe, res, aspects, seed=0, tag="increl"):
     r2 = copy.copy(res)
     r2.behaviours = []
     for b in res.behaviours:
+        if not any(t["v"] == "include" for p0 in b["parses"] for t in p0["toks"]):
+            continue        # identical to the first pass
         nb = relativize(b)
         for p in nb["parses"]:
             d1 = p["exp"]["diag1"]
